@@ -1,7 +1,7 @@
 #!/bin/bash
 # usage: tools/seedtest.sh <patch.diff> <prop> [<prop> ...]   -- applies a seeded change to /repo, runs the quick checks, undoes it
 set -u
-patch="$1"; shift
+patch="$(readlink -f "$1")"; shift
 cd /repo || exit 2
 if ! git apply --check "$patch" 2>/dev/null; then echo "PATCH DOES NOT APPLY: $patch"; exit 2; fi
 git apply "$patch"
